@@ -3,8 +3,10 @@ Engine E2 (history BFS over the real CiderGrids object), DESIGN.md section 5/C19
 
 State      = history of operations applied to ONE CiderGrids object; canonical key = (settings,
              hash of coords/weights/idx_map), so equal grids reached by different histories merge.
-Operations = build(sort_grids, with_non0tab), prune_by_density_(rho, threshold) (repeatable),
-             reset(), change of level / atom_grid / prune / alignment followed by build.
+Operations = build(sort_grids, with_non0tab), build(mol=<the same atoms listed in reverse order>) on the
+             object constructed for the original order (the grid is then one "built for" the molecule
+             passed in, and every table must describe that molecule), prune_by_density_(rho, threshold)
+             (repeatable), reset(), change of level / atom_grid / prune / alignment followed by build.
 Invariants = multiset {(coords, weight)} equals that of pyscf.dft.Grids with the same settings
              put through the same prunings (bitwise after lexicographic sort); idx_map injective
              into the atom-ordered grid with all_weights[idx_map] == weights; owning atoms and
@@ -34,7 +36,7 @@ DEPTH = 3
 MOLS = ["He", "LiH", "H2O", "OH", "HOH", "HSH", "HOHlab"]
 LMAXS = [4, 6, 10, 12]  # 12: above the package default, where shells of 170-302 points are the ones to be truncated
 OPS = [
-    "build", "build:nosort", "build:non0", "prune:1e-12", "prune:1e-6", "prune:1e-2", "prune:0", "reset",
+    "build", "build:nosort", "build:non0", "build:othermol", "prune:1e-12", "prune:1e-6", "prune:1e-2", "prune:0", "reset",
     "set:level1", "set:grid15x26", "set:grid20x50", "set:grid-elem", "set:prune-none", "set:prune-nwchem", "set:align1", "set:align8",
 ]
 
@@ -63,8 +65,19 @@ def _density(mol, coords):
     return rho
 
 
+def _reversed_mol(mol):
+    """The same atoms (labels, coordinates, basis, spin) listed in reverse order; None for one atom."""
+    from pyscf import gto
+
+    if mol.natm < 2:
+        return None
+    atom = [(mol.atom_symbol(i), tuple(mol.atom_coord(i))) for i in reversed(range(mol.natm))]
+    return gto.M(atom=atom, basis=mol.basis, spin=mol.spin, verbose=0, unit="Bohr")
+
+
 def _apply(mol, lmax, hist):
-    """Replay the history on a fresh CiderGrids and, in lock step, on a PySCF Grids reference."""
+    """Replay the history on a fresh CiderGrids and, in lock step, on a PySCF Grids reference.
+    Returns (g, r, built, cur) with cur the molecule the present grid was built for."""
     from pyscf.dft import gen_grid
 
     from ciderpress.pyscf.gen_cider_grid import CiderGrids
@@ -74,19 +87,29 @@ def _apply(mol, lmax, hist):
     for x in (g, r):
         x.level = 0
     built = False
+    cur = mol
     log = []
     for op in hist:
-        if op.startswith("build"):
+        if op == "build:othermol":
+            other = _reversed_mol(mol)
+            if other is None:
+                return None
+            g.build(mol=other, full_lmax=lmax)
+            r.build(mol=other)
+            built = True
+            cur = other
+        elif op.startswith("build"):
             sort = op != "build:nosort"
             g.build(with_non0tab=(op == "build:non0"), sort_grids=sort, full_lmax=lmax)
             r.build(with_non0tab=(op == "build:non0"), sort_grids=sort)
             built = True
+            cur = mol
         elif op.startswith("prune:"):
             if not built:
                 return None
             thr = float(op.split(":")[1])
-            rho_g = _density(mol, g.coords)
-            rho_r = _density(mol, r.coords)
+            rho_g = _density(cur, g.coords)
+            rho_r = _density(cur, r.coords)
             # scale to the electron count so that the pruning branch is taken
             rho_g *= mol.nelectron / np.dot(rho_g, g.weights)
             rho_r *= mol.nelectron / np.dot(rho_r, r.weights)
@@ -118,7 +141,7 @@ def _apply(mol, lmax, hist):
                     x.alignment = 8
             built = False
         log.append(op)
-    return g, r, built
+    return g, r, built, cur
 
 
 def _sorted_rows(coords, weights):
@@ -246,17 +269,19 @@ def run_case(case):
     outcome = ["unbuilt", case["mol"], lmax]
     evals = 1
     if res is not None:
-        g, r, built = res
+        g, r, built, cur = res
         if built:
             tag = ck + ";last=%s" % (hist[-1].split(":")[0] if hist else "-")
-            fails += _check(mol, lmax, g, r, tag)
+            if cur is not mol:
+                tag += ";built-for=reversed-atom-order"
+            fails += _check(cur, lmax, g, r, tag)
             if hist and hist[-1].startswith("build"):
-                f2, worst = _ylm_orthonormal(mol, lmax, g, ck)
+                f2, worst = _ylm_orthonormal(cur, lmax, g, ck)
                 fails += f2
             h = hashlib.sha1()
             for a in (g.coords, g.weights, g.grids_indexer.idx_map):
                 h.update(np.ascontiguousarray(a).tobytes())
-            settings = (g.level, str(g.atom_grid), getattr(g.prune, "__name__", str(g.prune)), g.alignment, g.non0tab is None)
+            settings = (g.level, str(g.atom_grid), getattr(g.prune, "__name__", str(g.prune)), g.alignment, g.non0tab is None, cur is mol)
             state = "%s|%s|%s" % (ck, settings, h.hexdigest()[:16])
             outcome = [case["mol"], lmax, int(g.weights.size), h.hexdigest()[:12]]
         else:
